@@ -194,7 +194,7 @@ def classify(op, l, r, lbase=None):
     """differences that are recorded findings (identified by the operation and the shape of the difference)"""
     if op[0] == "size" and isinstance(l, int) and isinstance(r, int) and r > l and lbase and has_symlink(os.path.join(lbase, *op[1])):
         return "KF-C24-size-follows-symlinks"
-    if op[0] in ("symlink_to", "hardlink_to") and l == "ERROR" and r is None and lbase and os.path.lexists(os.path.join(lbase, *op[1])):
+    if op[0] in ("symlink_to", "hardlink_to", "symlink_text") and l == "ERROR" and r is None and lbase and os.path.lexists(os.path.join(lbase, *op[1])):
         # the link name exists already: the local API refuses, `ln -f` replaces it
         return "KF-C24-link-replaces-existing"
     if op[0] == "mkdir" and op[3] != op[4] and l == "ERROR" and r is None:
@@ -230,7 +230,7 @@ async def one_history(n_ops):
                 kf = classify(op, lres, rres, os.path.join(base, "L"))
                 if kf:
                     KNOWN.add(kf)
-                    if op[0] in ("mkdir", "symlink_to", "hardlink_to"):
+                    if op[0] in ("mkdir", "symlink_to", "hardlink_to", "symlink_text"):
                         return None  # the two trees differ from here on: the history ends
                     continue
                 return {"failure": "remote and local result differ", "operation": repr(op)[:300], "local": repr(lres)[:300], "remote": repr(rres)[:300],
